@@ -545,10 +545,15 @@ package soyhtml
 //@   at call (*state).walk#0 assert[data-expr-passes-that-map-only;C02] !node.AllData && node.Data != nil ==> len(arg0.context) == 3 && arg0.context[0].vars == dm
 //@   at call (*state).walk#0 assert[plain-call-passes-params-only;C02] !node.AllData && node.Data == nil ==> len(arg0.context) == 2
 //@   at call (*state).walk#0 assert[param-and-body-frames-are-new;C02] fresh(arg0.context[len(arg0.context)-1].vars) && fresh(arg0.context[len(arg0.context)-2].vars)
+// rendering a block ({param}, {let}, {log} content) into a buffer leaves the
+// "current node" at the command that owns the block: a failure later in that
+// command (the callee of a {call}) is reported at the command, not at the
+// last node of the block.
 //@ func (*state).renderBlock
 //@   like stateMethod
 //@   trustedensures[frames-kept;C02] len(s.context) == old(len(s.context)) && forall(i, 0, len(s.context), s.context[i].vars == old(s.context[i].vars) && s.context[i].entered == old(s.context[i].entered) && unchangedmap(s.context[i].vars)) && forall(i, 0, len(s.context), old(s.context)[i].vars == old(s.context[i].vars)) && otherarraysunchanged(s.context) && (base(s.context) == old(base(s.context)) || base(s.context) >= old(allocmark()))
 //@   nosafety
+//@   ensures[restores-current-node-and-writer;C19] s.node == old(s.node) && s.wr == old(s.wr)
 //@ func (*state).evalFunc
 //@   like stateMethod
 //@   trustedensures[frames-kept;C02] len(s.context) == old(len(s.context)) && forall(i, 0, len(s.context), s.context[i].vars == old(s.context[i].vars) && s.context[i].entered == old(s.context[i].entered) && unchangedmap(s.context[i].vars)) && forall(i, 0, len(s.context), old(s.context)[i].vars == old(s.context[i].vars)) && otherarraysunchanged(s.context) && (base(s.context) == old(base(s.context)) || base(s.context) >= old(allocmark()))
